@@ -154,6 +154,53 @@ def run_registry(chk, stats, quick):
         stats["registry_tags"] = len(tags)
 
 
+def run_hostile_names(chk, stats):
+    """File and directory names are data: a dry run that evaluates filter/sort expressions over them must not
+    execute anything they spell.  Names that close a quote and continue with Python code (each would create a
+    directory if it were ever evaluated), in every position a name-valued tag can take in an expression."""
+    payload1 = "q'+str(__import__('os').mkdir('PWNED1'))+'"
+    payload2 = 'q"+str(__import__("os").mkdir("PWNED2"))+"'
+    payload3 = "r')) or __import__('os').mkdir('PWNED3') or ((' .txt"
+    names = [payload1, payload2, payload3, "back\\", "tri" + "'" * 3 + "ple", "tri" + '"' * 3 + "ple", "plain.txt", "nl\nname", "{0}{x}%Name()"]
+    exprs = [("-ft", "%Dir() != 'zz'"), ("-ft", "%Name() != 'zz'"), ("-ft", "len(%Base()) >= 0 and %Ext() != '.none'"),
+             ("-s", "%Dir()"), ("-s", "%Name()"), ("-s", "str(%Dir()) + %Base() + %Ext()"), ("-ft", "str(%Dir()).count('x') < 99"),
+             ("-s", "(%Size(), %Name(), %Dir())")]
+    with Sandbox() as root:
+        # one tree per hostile directory name, so that an evaluation error on one name cannot hide another
+        trees = []
+        for k, dn in enumerate(names[:6]):
+            tree = os.path.join(root, "in%d" % k)
+            os.mkdir(tree)
+            os.mkdir(os.path.join(tree, dn))
+            for fn in ("plain.txt", names[(k + 1) % len(names)], names[(k + 4) % len(names)]):
+                with open(os.path.join(tree, dn, fn), "w") as fh:
+                    fh.write(fn)
+                with open(os.path.join(tree, "f-" + fn), "w") as fh:
+                    fh.write("x")
+            trees.append(tree)
+        before = strict(root)
+        for opt, e in exprs:
+            for mode, tpl, tree in [(m, t, tr) for tr in trees for (m, t) in (("-n", "%Upper{%Name()}"), ("-p", "%Dir()/n/%Name()"))]:
+                argv = ["-dr", "-r", "-ih", mode, opt + "=" + e, "--", tpl, tree]
+                res = run_cli(argv, root, root=root, snapshots=False)
+                after = strict(root)
+                stats["hostile_name_runs"] = stats.get("hostile_name_runs", 0) + 1
+                stats.setdefault("hostile_status", {})
+                stats["hostile_status"][str(res.status)] = stats["hostile_status"].get(str(res.status), 0) + 1
+                chk.count(("hostile", opt, e, mode, os.path.basename(tree)))
+                case = {"argv": argv[:-1] + ["<tree with names that spell Python code>"], "names": names, "status": res.status,
+                        "stderr": res.stderr[-300:]}
+                if res.tracer.calls:
+                    chk.oracle_fail("dry run evaluated a file name as code / issued filesystem-changing calls: %r" % (
+                        [(c["name"], c["args"]) for c in res.tracer.calls][:3],), case)
+                elif after != before:
+                    diff = [k for k in set(before) | set(after) if before.get(k) != after.get(k)]
+                    chk.oracle_fail("dry run over hostile names changed the tree: %r" % (sorted(diff)[:4],), case)
+                    before = after
+                elif res.cwd_after != root:
+                    chk.oracle_fail("working directory not restored after a dry run over hostile names", case)
+
+
 def run(chk):
     rng = chk.rng
     quick = chk.tier == "quick"
@@ -176,6 +223,7 @@ def run(chk):
                             {"scenario": pipe.slim(s2)})
     excluded = pipe.check_cases(chk, scns, obss)
     run_registry(chk, stats, quick)
+    run_hostile_names(chk, stats)
     for s, o in list(zip(scns, obss))[:3]:
         chk.sample({"mode": s["mode"], "strategy": s["strategy"], "answers": s["answers"],
                     "plan": [(e["dir"], e["rel"], e["r"]) for e in s["plan"]][:4], "status": o["status"], "report": o["report"][:3]})
